@@ -31,6 +31,11 @@ type BackendRun struct {
 	O     *run.Outcome
 	Val   *m.Val   // checked-walk reading of the result (nil if none / malformed)
 	Probs []string // checked-walk problems against the inferred type
+	// Again: how a second invocation of the SAME Callable (fresh environment object, same
+	// contents) differs from the first; "" when it does not. A Callable carries no state from
+	// one invocation to the next, so whatever a property says about the first invocation it
+	// says about the second.
+	Again string
 }
 
 // CaseRun: reference verdicts and the four back ends' outcomes.
@@ -75,13 +80,44 @@ func refRun(c *ProgCase) *CaseRun {
 func runBackends(c *ProgCase, r *CaseRun, bes []run.Backend) {
 	for _, be := range bes {
 		en := run.NewEngine(be, c.Extra)
-		o := en.RunSrc(r.Src, c.Env, c.Vals)
+		o := &run.Outcome{Be: be}
+		callable, err, p := en.CompileSrc(r.Src, c.Env)
+		o.CompileErr, o.CompilePan = err, p
 		br := &BackendRun{O: o}
-		if o.Compiled() && !o.Failed() {
-			br.Val, br.Probs = run.FromYaeVal(o.Val, r.RefType)
+		if o.Compiled() {
+			en.Invoke(callable, c.Vals, o)
+			if !o.Failed() {
+				br.Val, br.Probs = run.FromYaeVal(o.Val, r.RefType)
+			}
+			o2 := &run.Outcome{Be: be}
+			en.Invoke(callable, c.Vals, o2)
+			br.Again = againDiff(br, o2, r.RefType)
 		}
 		r.Runs = append(r.Runs, br)
 	}
+}
+
+// againDiff: the second invocation against the first - failed or not, the value read by the
+// checked walk (bit-exact numbers), the host-function trace.
+func againDiff(first *BackendRun, o2 *run.Outcome, ty *m.Type) string {
+	o := first.O
+	if o.Failed() != o2.Failed() {
+		return fmt.Sprintf("first invocation: %s; second invocation of the same Callable: %s", describeOutcome(first), describeOutcome(&BackendRun{O: o2}))
+	}
+	if !sameTrace(o.Trace, o2.Trace) {
+		return fmt.Sprintf("host functions invoked differently by the second invocation of the same Callable: first %s; second %s", traceStr(o.Trace), traceStr(o2.Trace))
+	}
+	if o.Failed() {
+		return ""
+	}
+	v2, probs2 := run.FromYaeVal(o2.Val, ty)
+	if (len(first.Probs) == 0) != (len(probs2) == 0) {
+		return fmt.Sprintf("the second invocation of the same Callable yields a differently formed value: first %v; second %v", first.Probs, probs2)
+	}
+	if first.Val != nil && v2 != nil && !m.Identical(first.Val, v2) {
+		return fmt.Sprintf("first invocation yields %s, the second invocation of the same Callable yields %s", first.Val.Render(), v2.Render())
+	}
+	return ""
 }
 
 func fullRun(c *ProgCase) *CaseRun {
